@@ -58,7 +58,7 @@ func gtFact(f cfgx.Fact, isA, isB func(ast.Expr) bool) int {
 func c17(c *Ctx) {
 	r := c.R
 	r.Explanation = "Partial: (Y1) getSessionLocked answers 'no such session' only on the edge lastProcessed.Id > id.Id and 'not yet seen' on the complementary edge, a found session wins; lastProcessed has only the expected writers and is advanced after every processed entry; (Y2) the API never turns 'not yet seen' into 404 on a follower (proxy / 5xx instead) and only two functions map session() errors; (Y3) the expiry sweep proposes DeleteSession exactly on the edge Reply == 0 and time.Since(LastActivity) > Config.SessionExpiration, for the range key, and main proposes them only as leader; (Y4) Session.deleted is set only by deleteSessionLocked, which always removes the nick from the index and every channel; every processed entry is followed by MaybeDeleteSession, which removes exactly the sessions marked deleted; (Y5) after deleteSessionLocked(x) a handler sends x only the closing ERROR/KILL. Which error a lagging follower returns for a concrete id depends on the applied prefix and is not decided."
-	r.Rules = []string{"C17.Y1 the two look-up errors", "C17.Y2 error mapping at the API", "C17.Y3 expiry sweep", "C17.Y4 ending a session cleans up", "C17.Y5 nothing further is delivered"}
+	r.Rules = []string{"C17.Y1 the two look-up errors", "C17.Y2 error mapping at the API", "C17.Y3 expiry sweep", "C17.Y4 ending a session cleans up", "C17.Y5 nothing further is delivered", "C17.Y6 an announced end happens"}
 
 	// ---------- Y1
 	gsl := c.MustFunc("ircserver.(*IRCServer).getSessionLocked")
@@ -962,6 +962,165 @@ func c17(c *Ctx) {
 					"a message other than the closing ERROR/KILL is addressed to a session after it was ended (command "+cmd+")")
 			}
 		}
+	}
+	// ---------- Y6 an end that is announced happens: a session whose QUIT is relayed to its peers, or that is sent the closing
+	// ERROR line, is ended by deleteSessionLocked on every path through the announcement (before or after it)
+	nAnn := 0
+	for _, fi := range c.P.FuncsIn("ircserver") {
+		if fi.Body() == nil || fi == dsl {
+			continue
+		}
+		info := fi.Info()
+		var g *cfgx.Graph
+		for _, sc := range astx.Calls(fi.Body(), true) {
+			fn := astx.Callee(info, sc)
+			if fn == nil || (fname(fn) != "sendUser" && fname(fn) != "sendCommonChannels") || len(sc.Args) < 3 {
+				continue
+			}
+			var lit *ast.CompositeLit
+			ast.Inspect(sc.Args[2], func(n ast.Node) bool {
+				if cl, ok := n.(*ast.CompositeLit); ok && lit == nil {
+					lit = cl
+				}
+				return lit == nil
+			})
+			if lit == nil {
+				continue
+			}
+			cmd := ""
+			if cv := litField(lit, "Command"); cv != nil {
+				cmd, _ = astx.ConstString(info, cv)
+			}
+			what := ""
+			switch {
+			case fname(fn) == "sendCommonChannels" && cmd == "QUIT":
+				what = "QUIT relayed to the peers of " + astx.Str(sc.Args[0])
+			case fname(fn) == "sendUser" && cmd == "ERROR":
+				// the closing line (the password refusal of SERVER is an ERROR too, but does not close the link)
+				closing := false
+				ast.Inspect(lit, func(n ast.Node) bool {
+					if e, ok := n.(ast.Expr); ok {
+						if s, ok := astx.ConstString(info, e); ok && strings.Contains(s, "Closing Link") {
+							closing = true
+						}
+					}
+					return true
+				})
+				if !closing {
+					continue
+				}
+				what = "closing ERROR sent to " + astx.Str(sc.Args[0])
+			default:
+				continue
+			}
+			if g == nil {
+				g = c.Graph(fi)
+			}
+			sv := g.VertexOf(sc)
+			if sv < 0 {
+				continue
+			}
+			nAnn++
+			isDel := func(x int) bool {
+				if x == sv || g.V[x].Node == nil {
+					return false
+				}
+				for _, dc := range astx.Calls(g.V[x].Node, false) {
+					if astx.Callee(info, dc) == dsl.Obj && len(dc.Args) >= 1 && astx.Same(info, dc.Args[0], sc.Args[0]) {
+						return true
+					}
+				}
+				return false
+			}
+			// a path entry -> announcement -> exit that passes no deletion of that session
+			before := false
+			{
+				seen := g.Reach(g.Entry, isDel, nil)
+				before = !seen[sv]
+			}
+			after := !g.Reach(sv, isDel, nil)[g.Exit]
+			r.Check(before || after, "C17.Y6", fi.Name(), what+": the session is ended on every path", c.P.Pos(sc.Pos()), "deleteSessionLocked(<same session>, …) before or after, on every path",
+				"peers are told that the session quit (or the session is told that its link is closed) but the session is not ended on some path: it keeps its nickname and its channels and goes on receiving — ended for everybody else, alive in the state")
+		}
+	}
+	// the QUIT handlers end the quitting session itself: cmdQuit always, server_QUIT when the line carries no prefix (with a
+	// prefix it ends the one pseudo-client named, which the loop above covers)
+	for _, name := range []string{"ircserver.(*IRCServer).cmdQuit", "ircserver.(*IRCServer).cmdServerQuit"} {
+		fi := c.P.Func(name)
+		if fi == nil || fi.Body() == nil {
+			r.Break("C17.Y6: %s not found", name)
+			continue
+		}
+		info := fi.Info()
+		sp := c.irc().sessionParam(fi)
+		g := c.Graph(fi)
+		okOwn := false
+		for _, dc := range callsIn(fi, func(fn *types.Func, _ *ast.CallExpr) bool { return fn == dsl.Obj }) {
+			if len(dc.Args) < 1 {
+				continue
+			}
+			id, isID := ast.Unparen(dc.Args[0]).(*ast.Ident)
+			if !isID || sp == nil || astx.Obj(info, id) != sp {
+				continue
+			}
+			only := true
+			for _, f := range g.FactsAt(g.VertexOf(dc)) {
+				x, isNil, ok := nilCompare(info, f)
+				if !ok || !isNil {
+					only = false
+					continue
+				}
+				if se, ok := ast.Unparen(x).(*ast.SelectorExpr); !ok || se.Sel.Name != "Prefix" {
+					only = false
+				}
+			}
+			if only {
+				okOwn = true
+			}
+		}
+		r.Check(okOwn, "C17.Y6", fi.Name(), "QUIT ends the quitting session", c.P.Pos(fi.Node().Pos()), "deleteSessionLocked(<acting session>, …), at most under <msg>.Prefix == nil",
+			"the QUIT handler does not end the session that quits (or only under a further condition): the session stays in the state after its QUIT")
+	}
+	// a session that ProcessMessage itself ended (ban, not registered in time) has its line dropped: the command handler is not
+	// reachable from the deletion — a handler that runs for a session that is already out of the nickname index and the
+	// channels re-enters it there (a NICK takes a nickname that is then never free again)
+	if pm := c.P.Func("ircserver.(*IRCServer).ProcessMessage"); pm != nil && pm.Body() != nil {
+		info := pm.Info()
+		g := c.Graph(pm)
+		// the dispatch: a call through a struct field of function type (cmd.Func(i, s, reply, msg))
+		var dispatch []int
+		for _, v := range g.Nodes() {
+			for _, call := range astx.Calls(v.Node, false) {
+				if se, ok := ast.Unparen(call.Fun).(*ast.SelectorExpr); ok {
+					if fv := astx.FieldSel(info, se); fv != nil {
+						if _, isFn := fv.Type().Underlying().(*types.Signature); isFn {
+							dispatch = append(dispatch, v.ID)
+						}
+					}
+				}
+			}
+		}
+		if len(dispatch) == 0 {
+			r.Break("C17.Y6: the command dispatch of ProcessMessage was not recognised")
+		}
+		for _, dc := range callsIn(pm, func(fn *types.Func, _ *ast.CallExpr) bool { return fn == dsl.Obj }) {
+			dv := g.VertexOf(dc)
+			if dv < 0 {
+				continue
+			}
+			reach := g.Reach(dv, nil, nil)
+			hit := false
+			for _, x := range dispatch {
+				if reach[x] && x != dv {
+					hit = true
+				}
+			}
+			r.Check(!hit, "C17.Y6", pm.Name(), "the line of a session that was just ended is not dispatched", c.P.Pos(dc.Pos()), "the command handler is not reachable from the deletion",
+				"after ProcessMessage ended the session (ban, registration time-out) it still runs the command handler for it: the dead session takes a nickname / joins a channel again and stays there for ever")
+		}
+	}
+	if nAnn < 7 {
+		r.Break("C17.Y6: only %d end-of-session announcements found in package ircserver", nAnn)
 	}
 	_ = strings.ToUpper
 	var _ = load.ModPath
